@@ -119,7 +119,7 @@ def _mutant_worker(a):
     failed = []
     for ob in sink.obs:
         if ob.status is None:
-            discharge_z3(ob, 10000)
+            discharge_z3(ob, 1500)
         if ob.status == REFUTED:
             failed.append(ob.key)
     return {"mutant": m["name"], "failed": failed, "undecided_paths": len(sink.undecided)}
